@@ -1010,6 +1010,8 @@ class Interp:
 
     def instantiate(self, cls, args, kwargs):
         B = self.builtins
+        if any(getattr(c, "unmodelled_base", None) for c in cls.mro):
+            raise Unsupported(f"instantiating {cls.name}: a base class ({[getattr(c, 'unmodelled_base', None) for c in cls.mro if getattr(c, 'unmodelled_base', None)][0]}) is not modelled")
         if cls.is_enum:
             return self.enum_lookup(cls, args[0])
         native = cls.ns.get("__native_new__")
@@ -1303,6 +1305,17 @@ class Interp:
             raise self.exc("TypeError", f"'{type(it).__name__}' object is not iterable")
         if isinstance(it, (list, tuple)):
             return list(it)
+        if isinstance(it, Class) and it.is_enum:
+            # iterating an Enum class: its members in definition order, aliases left out
+            seen, out = [], []
+            for m in it.members.values():
+                if not any(m is x for x in seen):
+                    seen.append(m)
+                    out.append(m)
+            return out
+        if type(it) is Instance and getattr(it.cls, "is_namedtuple", False):
+            from .values import all_dc_fields
+            return [it.attrs.get(f[0]) for f in all_dc_fields(it.cls)]
         if isinstance(it, range):
             return list(it)
         if isinstance(it, dict):
@@ -1461,6 +1474,14 @@ class Interp:
                 v.fget.owner = cls
         if cls.is_enum:
             self.loader.finish_enum(self, cls)
+        if any(getattr(b, "is_namedtuple_base", False) for b in cls.bases):
+            # class X(NamedTuple): positional, immutable, compared by value, iterable and indexable in field order
+            from .stdlib import _dataclass_apply
+            _dataclass_apply(self, cls, frozen=True, eq_=True)
+            cls.is_namedtuple = True
+        for b in bases:
+            if not isinstance(b, (Class, TypeDummy)):
+                cls.unmodelled_base = repr(b)   # instantiating it is outside the modelled subset
         for kw in node.keywords:
             pass
         v = cls
